@@ -1,9 +1,10 @@
 SPECIFICATION Spec
 CONSTANTS
   MaskOpusRate = FALSE
-  AudioFrames <- McAudioFrames
-  VideoFrames <- McVideoFrames
+  AudioParams <- McAudioParams
+  VideoParams <- McVideoParams
   AudioBodies <- McAudioBodies
   VideoBodies <- McVideoBodies
+  ShortBodies <- McShortBodies
 INVARIANTS FirstByte
 CHECK_DEADLOCK FALSE
